@@ -43,6 +43,37 @@ CHECKS = {
     note='partial for DAYS/DATEDIF-d: 1 known finding (pairs straddling 1900-03-01 or touching 1900-01-01T00:00); ISO text goes '
          'through dateutil and is checked by the oracle only; arguments are ints/datetimes.',
     technique='Coq proof (lia with div/mod, calendar lemmas; _refuted witness by vm_compute) + correspondence + oracle'),
+ 'C07': dict(
+    text='Coq theorems over a transcription of ExcelComparator for ALL scalar values (exact rationals, date-times through '
+         'their serial, code-point strings, logicals, blank): exactly one of <,=,> ; <=,>=,<> are the derived relations; '
+         'a<b iff b>a; transitivity on non-blank values; number/date < text < logical; numeric, serial and lexicographic '
+         'order; blank as 0 / "" / FALSE. Tied to operators.py by all ordered pairs of a 46-value pool x 6 operators '
+         'through Parser.parse plus random pairs; an independent oracle checks the laws on all pairs and triples.',
+    design='7/C07',
+    note='numbers are exact rationals (Python compares int/float exactly); float serials of date-times are modelled '
+         'by the exact serial (pool date-times have exactly representable serials); arrays/errors are outside C07.',
+    technique='Coq proof (case analysis on value kinds, order lemmas on Q and code-point lists) + all-pairs correspondence'),
+ 'C12': dict(
+    text='Coq theorems over a transcription of logic.py and the IS* predicates for argument lists of any length and '
+         'nesting: AND/OR/XOR = conjunction/disjunction/parity over the flattened leaves, flattening invariant under '
+         'regrouping, NOT, IF, IFS first-true, SWITCH first-equal/default/#N/A, an error in a tested condition is the '
+         'result, predicates exclusive and exact, ISNONTEXT, ISERROR = ISERR or ISNA, ISEVEN/ISODD parity of the integer '
+         'part. Tied to the code by exhaustive small tuples over a value pool and an oracle through Parser.parse.',
+    design='7/C12',
+    note='"equal" in SWITCH is Python equality (1 = TRUE = 1.0), which the property text leaves open; text truthiness '
+         '(non-empty) is modelled but not claimed by the property.',
+    technique='Coq proof (induction over argument lists / nested values) + exhaustive small-tuple correspondence'),
+ 'C18': dict(
+    text='Coq theorems over a transcription of CHOOSE, INDEX, MATCH for arrays of any size: CHOOSE = vi or an error; INDEX '
+         '= the addressed element inside, #REF! - never another element - outside, whole row/column for 0 or omitted; '
+         'MATCH 0 = first equal item or #N/A; INDEX(MATCH) inverse; MATCH 1/-1 on ascending/descending numeric arrays = a '
+         'position of the largest item <= x / smallest item >= x (scan invariant, duplicates allowed). Tied to '
+         'lookupandreference.py by exhaustive small arrays x all indices -10..size+10 and an oracle through Parser.parse '
+         'with literal, variable and range-supplied arrays.',
+    design='7/C18',
+    note='float / numeric-text index arguments and wildcard patterns containing "[" are outside the model; fnmatch and '
+         'str.lower are modelled on ASCII.',
+    technique='Coq proof (list induction, scan invariant on sorted lists) + exhaustive small-array correspondence'),
 }
 PENDING = {}
 def main():
